@@ -848,6 +848,7 @@ func runTaint(p *Prog) *taintEngine {
 }
 
 func checkC17(p *Prog, r *Report) {
+	ruleRegexpConsts(p, r, "R-RX", "C17", 2)
 	r.rule("R17.1", "No secret reaches a log/terminal sink. Sources: result 2 of (*program.Config).GetUserPass, term.ReadPassword, Config.Password (password); the keygen reply passed to panos.parseAPIKey and its result, hence panos.State.urlPrefix (apikey); the x-xsrf-token response header, hence nsx.State.token (token). Sinks: errlog.Info/Warning/Abort/DoLog/PrintWithMarker, fmt.Print*, fmt.Fprint* to anything but a local strings.Builder, (*os.File).Write*, os.WriteFile, console.logString, doapprove.logHistory, status.write and the front-ends' abort/warn helpers. Propagation: inter-procedural with label-polymorphic summaries (parameter -> result, parameter -> sink, parameter -> field), field-based for struct fields, flow-sensitive for mutable containers (url.Values, headers, builders: tainted only after the instruction that stores the secret), and the error of (*http.Client).Get/Do/PostForm carries the labels of the request URL. Sanitisers: (*regexp.Regexp).ReplaceAllString whose pattern names the label (password=, key=, <key>) and whose replacement contains xxx. What is sent to the device is not a sink.")
 	e := runTaint(p)
 	// every syntactic source site, whether or not anything downstream asked for it
